@@ -446,6 +446,7 @@ type Clause struct {
 	File    string
 	Line    int
 	Finding bool // ensures that is a known finding candidate (has an as-is pin)
+	OnlyFor []string // properties under which this clause is an obligation (empty = all)
 }
 
 type FuncContract struct {
@@ -542,6 +543,8 @@ var stageRe = regexp.MustCompile(`^\[stage (\d+)\]\s*`)
 var windowRe = regexp.MustCompile(`\s+window\s+(\d+)$`)
 var sinceRe = regexp.MustCompile(`\s+since\s+"([^"]+)"$`)
 var usingRe = regexp.MustCompile(`\s+using\s+([A-Za-z0-9_, \-]+)$`)
+var onlyforRe = regexp.MustCompile(`\s+onlyfor\s+([A-Z0-9, ]+)$`)
+
 var propsRe = regexp.MustCompile(`\s+props\s+([A-Z0-9, ]+)$`)
 
 var directiveKw = []string{"interface ", "trusted", "func ", "extern ", "requires ", "ensures ", "as-is ", "modifies ", "loop ", "pure-def ", "pure", "panics-never", "iterator-body", "inline", "opaque", "spec ", "axiom ", "lemma ", "refines ", "ghost ", "invariant ", "package ", "const ", "props "}
@@ -601,6 +604,14 @@ func (sp *Spec) ParseContractFile(path, defaultPkg string) error {
 		}
 		mkClause := func(kind, rest string) (*Clause, error) {
 			c := &Clause{Kind: kind, File: path, Line: d.line, Stage: 1}
+			// `... onlyfor C05, C06`: the clause is an obligation only when one of these properties is checked (it is
+			// always available to callers as an assumption)
+			if m := onlyforRe.FindStringSubmatch(rest); m != nil {
+				for _, u := range strings.Split(m[1], ",") {
+					c.OnlyFor = append(c.OnlyFor, strings.TrimSpace(u))
+				}
+				rest = rest[:len(rest)-len(m[0])]
+			}
 			if m := sinceRe.FindStringSubmatch(rest); m != nil {
 				c.Since = m[1]
 				rest = rest[:len(rest)-len(m[0])]
